@@ -1,11 +1,14 @@
 package c02
 
 import (
+	"encoding/json"
 	"fmt"
 	"os"
 	"testing"
 
 	"pgregory.net/rapid"
+
+	"verif/internal/vf"
 )
 
 // TestPlan type-checks every generated file of a tier (C02_TIER, default
@@ -47,4 +50,80 @@ func TestPlan(t *testing.T) {
 		t.Logf("%s-%d: %d groups, est %d KB output, %d KB source", f.Name, f.Idx, len(f.Groups), bytes/1024, len(src)/1024)
 	}
 	t.Logf("tier %s: %d files, %d groups, %d cells, %d source lines", name, len(files), groups, cells, lines)
+}
+
+// TestWriteKnownReplays regenerates replays/known/C02/*.json (only with
+// C02_WRITE_KNOWN=1): one minimal program per recorded root cause.
+func TestWriteKnownReplays(t *testing.T) {
+	if os.Getenv("C02_WRITE_KNOWN") == "" {
+		t.Skip("set C02_WRITE_KNOWN=1")
+	}
+	files := plan(tiers["quick"])
+	byID := map[string]*group{}
+	for _, f := range files {
+		for _, g := range f.Groups {
+			byID[g.ID] = g
+		}
+	}
+	pick := func(id, x, y string) (*group, int, int) {
+		g := byID[id]
+		if g == nil {
+			t.Fatalf("no group %s", id)
+		}
+		xi, yi := -1, -1
+		for i, v := range g.X.Vals {
+			if v.Disp == x {
+				xi = i
+			}
+		}
+		switch {
+		case g.Forms == "vv":
+			for i, v := range g.Y.Vals {
+				if v.Disp == y {
+					yi = i
+				}
+			}
+		case len(g.Forms) == 2:
+			for i, v := range g.Consts {
+				if v.Disp == y {
+					yi = i
+				}
+			}
+		default:
+			yi = 0
+		}
+		if xi < 0 || yi < 0 {
+			t.Fatalf("%s: operand %q/%q not found", id, x, y)
+		}
+		return g, xi, yi
+	}
+	type item struct{ key, id, x, y, msg string }
+	items := []item{
+		{keyNegShift, "shl/int.int/vv/as", "1", "-1", "1 << n with n = -1 (int variable): Go panics (negative shift amount), the interpreter yields 0"},
+		{keyC64Const, "sub/complex64/vc/def", "(3.4028235e+38,3.4028235e+38)", "(3.4028235e+38,3.4028235e+38)", "x - k with const k complex64 = (3.4028235e+38 + 3.4028235e+38i) and x holding the same value: k is not rounded to complex64, the difference is not 0"},
+		{keyC64Lit, "sub/complex64/vl/as", "(3.4028235e+38,3.4028235e+38)", "(3.4028235e+38,3.4028235e+38)", "r = x - (3.4028235e+38 + 3.4028235e+38i) with complex64 r, x: the literal is not rounded to complex64, the difference is not 0"},
+		{keyFloatDivZero, "quo/float64/vl/as", "1.5", "0", "x / 0 with a float64 variable x is rejected (division by zero); Go yields +Inf"},
+		{keyUintptrInc, "inc/uintptr/v/stmt", "1", "", "x++ on a uintptr variable ends the enclosing function"},
+		{keyShiftCmp, "shl/int.uint/lv/if", "1", "1", "if (1 << n) == c ends the enclosing function"},
+	}
+	dir := "../../replays/known/C02"
+	_ = os.MkdirAll(dir, 0o755)
+	for _, it := range items {
+		g, xi, yi := pick(it.id, it.x, it.y)
+		c := Case{Cell: g.cell(xi, yi), Src: miniProgram(g, xi, yi)}
+		writeReplay(t, dir, it.key, it.msg, c)
+	}
+	writeReplay(t, dir, keyNegZeroArg, "a float64 negative zero passed as argument to an interpreted function arrives as +0", Case{
+		Cell: Cell{ID: "arg/float64/v/call", Op: "arg", Kind: "float64", Forms: "v", Ctx: "call", X: "-0"},
+		Src:  "package main\n\nimport (\n\t\"fmt\"\n\t\"math\"\n)\n\nfunc show(v float64) {\n\tfmt.Printf(\"arg/float64/v/call|0|0|%v %016x\\n\", v, math.Float64bits(v))\n}\n\nfunc main() {\n\tz := math.Copysign(0, -1)\n\tshow(z)\n\tfmt.Printf(\"end|0|0|1\\n\")\n}\n",
+	})
+}
+
+func writeReplay(t *testing.T, dir, key, msg string, c Case) {
+	raw, _ := json.MarshalIndent(c, " ", " ")
+	rf := vf.ReplayFile{Property: "C02", Sig: key, Msg: msg, Seed: 0, Tier: "quick", Case: raw}
+	b, _ := json.MarshalIndent(rf, "", " ")
+	if err := os.WriteFile(dir+"/"+key+".json", append(b, '\n'), 0o644); err != nil {
+		t.Fatal(err)
+	}
 }
